@@ -15,7 +15,9 @@ def ref_tasks(prop, tier, seed, kf):
 
     def rest():
         r = core.Report(prop, tier, seed)
-        engine_b.discharge(r, kf, [cr.add_dependencies_contract(), cr.parameter_from_reference_contract()], prop, tier, seed)
+        import contracts.body_refs as cbr
+        engine_b.discharge(r, kf, [cr.add_dependencies_contract(), cr.parameter_from_reference_contract(),
+                                   cbr.resolve_contract()], prop, tier, seed)
         return r
     tasks.append(rest)
     return tasks
